@@ -41,6 +41,8 @@ fn app() -> App<()> {
             Response::new(StatusCode::OK, "own").with_header(HeaderType::Server, "mine").with_header(HeaderType::Connection, "Close")
         })
         .with_stateless_route("/cors*", |_r: Request| Response::new(StatusCode::OK, "c"))
+        .with_stateless_route("/wild*", |_r: Request| Response::new(StatusCode::OK, "w"))
+        .with_cors_config("/wild*", Cors::wildcard())
         .with_cors_config(
             "/cors*",
             Cors::new().with_origin("https://a.example").with_origin("https://b.example").with_method(Method::Get).with_method(Method::Post).with_header("X-H").with_header("X-I"),
